@@ -345,6 +345,8 @@ def canon(res):
         return {"kind": "ad", "val": [frac(x) for x in res.val], "jac": [[frac(x) for x in r] for r in j]}
     if isinstance(res, (int, float)):
         return {"kind": "scalar", "c": frac(float(res))} if np.isfinite(res) else {"kind": "nonfinite"}
+    if isinstance(res, complex) or (isinstance(res, np.ndarray) and np.iscomplexobj(res)):
+        return {"kind": "complex"}
     if isinstance(res, np.ndarray):
         if res.ndim != 1 or res.dtype == object:
             return {"kind": "weird-array"}
@@ -480,12 +482,14 @@ def _obin(op, l, r):
             m, s = (l, r) if l.kind == "m" else (r, l)
             return OV("m", sps.csr_matrix(m.val * s.val))
         if op == "div" and l.kind == "m" and r.kind == "s":
+            if r.val == 0:
+                raise Skip()
             return OV("m", sps.csr_matrix(l.val / r.val))
         raise Skip()
     if l.kind == "v" and r.kind == "v" and len(l.val) != len(r.val):
         raise Skip()
     if l.kind == "s" and r.kind == "s":
-        if op == "pow" and (r.val != int(r.val) or (l.val == 0 and r.val < 0)):
+        if op == "pow" and ((r.val != int(r.val) and l.val <= 0) or (l.val == 0 and r.val < 0)):
             raise Skip()
         if op == "div" and r.val == 0:
             raise Skip()
@@ -514,12 +518,16 @@ def _obin(op, l, r):
             t2 = None if rj is None else _diag(-lv / (rv * rv)) @ rj
             jac = t1 if t2 is None else t2 if t1 is None else t1 + t2
         elif op == "pow":
-            if rj is not None or np.any(rv != np.round(rv)):
-                raise Skip()  # exponent depending on the variables, or non-integer: logarithm
-            if np.any((lv == 0) & (rv < (0 if lj is None else 1))):
-                raise Skip()
+            integer = rj is None and bool(np.all(rv == np.round(rv)))
+            if integer:
+                if np.any((lv == 0) & (rv < (0 if lj is None else 1))):
+                    raise Skip()
+            elif np.any(lv <= 0):
+                raise Skip()  # real exponents / exponents depending on the variables need log(base)
             val = lv ** rv
-            jac = None if lj is None else _diag(rv * lv ** (rv - 1)) @ lj
+            t1 = None if lj is None else _diag(rv * lv ** (rv - 1)) @ lj
+            t2 = None if rj is None else _diag(val * np.log(lv)) @ rj
+            jac = t1 if t2 is None else t2 if t1 is None else t1 + t2
         else:
             raise Skip()
     return OV("v", val, jac)
@@ -602,6 +610,8 @@ def _oeval(w, e, deriv):
             m = l.val
             return OV("v", m @ np.full(m.shape[1], r.val))
         return _obin(e["op"], l, r)
+    if k in ("neg", "pt", "pi", "f1", "f2") and (e["a"]["k"] == "raw" or (k == "f2" and e["b"]["k"] == "raw")):
+        raise Skip()  # python applies these to a plain number / array, no operator is involved
     if k == "neg":
         x = _oeval(w, e["a"], deriv)
         return OV(x.kind, -x.val, None if x.jac is None else -x.jac)
@@ -682,6 +692,13 @@ def _arr_close(a, b):
 
 
 def oracle(case):
+    import warnings
+    with warnings.catch_warnings():
+        warnings.simplefilter("ignore")
+        return _oracle(case)
+
+
+def _oracle(case):
     """The property on the real code: EquationSystem.evaluate vs the forward-mode rules applied directly
     (independent of the Lean model), derivative=False vs True, previous values carry no derivative."""
     import warnings
@@ -702,7 +719,7 @@ def oracle(case):
             direct = None
         elif direct.jac is not None and not np.all(np.isfinite(_dense(direct.jac))):
             direct = None
-    except Skip:
+    except (Skip, ZeroDivisionError, OverflowError):
         direct = None
     if isinstance(op, Exception):
         if direct is not None:
@@ -723,6 +740,8 @@ def oracle(case):
                 r0 = w.es.evaluate(op, derivative=False, state=w.state)
             except Exception as e:
                 r0 = e
+    if any(isinstance(r, complex) or (isinstance(r, np.ndarray) and np.iscomplexobj(r)) for r in (r0, r1)):
+        return None  # negative number to a fractional power: python switches to complex numbers
     if direct is not None:
         dval = np.atleast_1d(np.asarray(direct.val, dtype=float))
         djac = np.zeros((len(dval), w.N)) if direct.jac is None else _dense(direct.jac)
@@ -745,6 +764,19 @@ def oracle(case):
             return {"what": f"values with and without derivatives disagree: {r0 if v0 is None else v0[:6].tolist()} vs {r1.val[:6].tolist()}", "key": f"noderiv-disagrees:{sig}"}
     if isinstance(r1, pp.ad.AdArray) and isinstance(r0, Exception) and not isinstance(r0, (ZeroDivisionError,)):
         return {"what": f"derivative=True gives a value but derivative=False raises {type(r0).__name__}", "key": f"noderiv-raises:{type(r0).__name__}:{sig}"}
+    if isinstance(r1, pp.ad.AdArray) and np.all(np.isfinite(r1.val)) and np.all(np.isfinite(_dense(r1.jac))) and len(sig) % 3 == 0:
+        # the deprecated entry points of the operator itself go through the same parser
+        with warnings.catch_warnings():
+            warnings.simplefilter("ignore")
+            with np.errstate(all="ignore"):
+                try:
+                    r2 = op.value_and_jacobian(w.es, state=w.state)
+                    v2 = op.value(w.es, state=w.state)
+                except Exception as e:
+                    return {"what": f"Operator.value_and_jacobian/value raises {type(e).__name__} where EquationSystem.evaluate works", "key": f"operator-entry-raises:{sig}"}
+        if not (isinstance(r2, pp.ad.AdArray) and _arr_close(r2.val, r1.val) and _arr_close(_dense(r2.jac), _dense(r1.jac))
+                and isinstance(v2, (int, float, np.ndarray)) and _arr_close(np.atleast_1d(np.asarray(v2, dtype=float)), r1.val)):
+            return {"what": "Operator.value_and_jacobian / Operator.value differ from EquationSystem.evaluate", "key": f"operator-entry-differs:{sig}"}
     if isinstance(r1, pp.ad.AdArray) and not _has_current_var(case["expr"]) and r1.jac.nnz and np.any(_dense(r1.jac) != 0):
         return {"what": "an expression without current variables (only previous time steps / iterates and constants) has a non-zero Jacobian", "key": f"prev-has-derivative:{sig}"}
     return None
@@ -793,8 +825,8 @@ def gen_world(rng, tier):
     rng.shuffle(vars_)
     case = {"grids": grids, "vars": vars_}
     n = total_dofs(case)
-    case["iter"] = [rvec(rng, n, 0.0) for _ in range(rng.randint(1, 3))]
-    case["time"] = [rvec(rng, n, 0.0) for _ in range(rng.randint(0, 3))]
+    case["iter"] = [rvec(rng, n, 0.0) for _ in range(rng.choice([1, 2, 3, 3, 4]))]
+    case["time"] = [rvec(rng, n, 0.0) for _ in range(rng.choice([0, 1, 2, 3, 3, 4]))]
     case["state"] = rvec(rng, n, 0.0)
     case["use_state"] = rng.random() < 0.6
     td = []
@@ -1099,7 +1131,16 @@ def stats(cases, impl_outs):
             elif "d1" in o:
                 res1[o["d1"].get("kind") or o["d1"].get("err")] += 1
                 res0[o["d0"].get("kind") or o["d0"].get("err")] += 1
-    return {"node_kinds": dict(kinds), "operations": dict(ops), "raw_operands": dict(raws), "derivative_true": dict(res1),
+    verdicts = 0
+    for c in cases:
+        try:
+            d = _oeval(world(c), c["expr"], True)
+            verdicts += d.kind != "m"
+        except Skip:
+            pass
+        except Exception:
+            pass
+    return {"oracle_has_direct_value": verdicts, "node_kinds": dict(kinds), "operations": dict(ops), "raw_operands": dict(raws), "derivative_true": dict(res1),
             "derivative_false": dict(res0), "use_state": sum(1 for c in cases if c["use_state"]),
             "subdomains": dict(Counter(sum(1 for g in c["grids"] if g["kind"] == "sub") for c in cases)),
             "interfaces": dict(Counter(sum(1 for g in c["grids"] if g["kind"] == "intf") for c in cases))}
